@@ -163,6 +163,28 @@ def r_zipguard_seq(ck: Checker) -> None:
         ck.holds("R-CAPTURE", f, tails[0], what)
     else:
         ck.violation("R-CAPTURE", f, f.node, what, construct=f"tail matcher receives {[norm(t.args[0]) for t in tails]}, expected {want}")
+    # the tail capture is produced whenever a tail matcher is set (also when nothing remains: it then captures an empty sequence)
+    body_ = strip_docstring(f.node.body)
+    zl = [st for st in body_ if isinstance(st, ast.For)]
+    if zl:
+        post = body_[body_.index(zl[-1]) + 1:]
+        k_t, k_tn = "self.tail_matcher", k_none("self.tail_matcher")
+        skipped = None
+        n_succ = 0
+        for lf in decision_tree(post, resolve=True, domain=lambda k: (0, 1, 2, 3) if k.startswith("len(") else (True, False)):
+            t = _tuple_ret(lf.value) if lf.outcome == "return" else None
+            if t is None or t[0] != "True":
+                continue
+            n_succ += 1
+            tail_set = True if (lf.assign.get(k_t) is True or lf.assign.get(k_tn) is False) else (False if (lf.assign.get(k_t) is False or lf.assign.get(k_tn) is True) else None)
+            called = any(isinstance(c, ast.Call) and norm(c.func) == "self.tail_matcher.match" for st in lf.stmts for c in ast.walk(st))
+            if tail_set and not called:
+                skipped = {k: v for k, v in lf.assign.items()}
+        what = "a trailing `*` capture is produced whenever the sequence matches (an exhausted sequence gives an empty capture)"
+        if skipped is not None:
+            ck.violation("R-CAPTURE", f, f.node, what, construct=f"SequenceMatcher._match: the tail matcher is set but not consulted when {skipped}")
+        elif n_succ:
+            ck.holds("R-CAPTURE", f, f.node, what, evaluations=n_succ)
     # element-wise zip pairs matchers with values in order
     zs = [st for st in walk_body(f.node.body) if isinstance(st, ast.For) and isinstance(st.iter, ast.Call) and dotted(st.iter.func) == "zip"]
     what = "elements are matched pairwise in order, a failing element fails the sequence"
@@ -380,6 +402,25 @@ def r_pure_match(ck: Checker) -> None:
                                  construct=f"{f.qualname}: {norm(n)[:50]}")
     if not bad:
         ck.holds("R-PURE-MATCH", (mods[0].rel, "*._match"), None, "no _match/match body stores state or mutates the matcher / the caller's context")
+    # the interpreter that compiles a pattern keeps per-pattern state (captures seen): a fresh one per compilation
+    what = "every compilation uses its own PatternDefInterpreter (no capture bookkeeping survives a rejected pattern)"
+    shared = None
+    n_vis = 0
+    for g_ in ck.repo.functions([ck.repo.mod(PAT)]):
+        for c_ in ast.walk(g_.raw or g_.node):
+            if isinstance(c_, ast.Call) and isinstance(c_.func, ast.Attribute) and c_.func.attr == "visit" and g_.qualname.split(".")[0] != "PatternDefInterpreter":
+                recv = c_.func.value
+                fresh = isinstance(recv, ast.Call) and dotted(recv.func) == "PatternDefInterpreter"
+                if isinstance(recv, ast.Name):
+                    binds = [st for st in ast.walk(g_.raw or g_.node) if isinstance(st, ast.Assign) and any(isinstance(t_, ast.Name) and t_.id == recv.id for t_ in st.targets)]
+                    fresh = bool(binds) and all(isinstance(b_.value, ast.Call) and dotted(b_.value.func) == "PatternDefInterpreter" for b_ in binds)
+                n_vis += 1
+                if not fresh:
+                    shared = (g_, c_, norm(recv))
+    if shared:
+        ck.violation("R-PURE-MATCH", shared[0], shared[1], what, construct=f"{shared[0].qualname}: patterns are compiled by the shared interpreter {shared[2]}")
+    elif n_vis:
+        ck.holds("R-PURE-MATCH", (ck.repo.mod(PAT).rel, "*"), None, what, evaluations=n_vis)
     # cache discipline
     fp = ck.repo.func(PAT, "NodeMatcher.from_pattern")
     what = "the pattern cache is keyed by the full pattern text and filled only on the success path"
